@@ -30,7 +30,10 @@ def _solve(job):
         attempts = [(A, 1, 12), (Bq, 1, 12), (A, 2, WALL_S), (Bq, 2, WALL_S), ({}, 1, WALL_S)]
         res, model, reason = "unknown", None, ""
         for n_att, (opts, mult, wall) in enumerate(attempts):
-            s = z3.Solver()
+            # a FRESH z3 context per attempt: the verdict then depends on the query text only, not on what this worker
+            # process solved before (AST ids / symbol tables of a shared context were measured to flip 2 s proofs to unknown)
+            zctx = z3.Context()
+            s = z3.Solver(ctx=zctx)
             s.set("rlimit", int(rlimit * mult))
             s.set("timeout", int(wall * 1000))
             for k_, v_ in opts.items():
@@ -49,6 +52,11 @@ def _solve(job):
             reason = s.reason_unknown()
             if rlimit <= 25_000_000:
                 break  # cheap checks (canaries, literally-false goals) are not retried
+        if os.environ.get("PYVC_SAVE_ALL") and len(text) == int(os.environ.get("PYVC_SAVE_LEN", "0")):
+            open(os.path.join(os.environ["PYVC_SAVE_ALL"], "t_%s_%s_%.0f.smt2" % (key[:10], res, time.time() - t0)), "w").write(text)
+        if os.environ.get("PYVC_SAVE_SLOW") and time.time() - t0 > 15:
+            open(os.path.join(os.environ["PYVC_SAVE_SLOW"], "slow_%s.smt2" % key[:10]), "w").write(text)
+            open(os.path.join(os.environ["PYVC_SAVE_SLOW"], "slow_%s.log" % key[:10]), "w").write("%s %s %.1fs attempts=%d\n" % (res, reason, time.time() - t0, n_att + 1))
         return key, res, time.time() - t0, model, reason
     except Exception as e:  # solver crash: undecided, never a violation by itself
         return key, "error", time.time() - t0, None, repr(e)
